@@ -27,6 +27,7 @@ type ltor struct {
 	name     string
 	single   bool
 	magnet   bool // metadata incomplete: only a display name is known
+	viaDN    *string // added from a magnet link with this display name; the metadata has completed since
 	files    []lfile
 	length   int64 // single
 	pieceLen int64
@@ -144,8 +145,10 @@ func genTorrent(t *rapid.T, lb string, names *[]string) *ltor {
 	case 1, 2:
 		lt.single = true
 		lt.length = max(1, genLen(t, lb+".length"))
+		lt.genVia(t, lb, names)
 		return lt
 	}
+	lt.genVia(t, lb, names)
 	budget := rapid.SampledFrom([]int{1, 2, 3, 4, 5, 6, 8, 10, 12, 15}).Draw(t, lb+".nfiles")
 	var pool []string
 	for len(lt.files) == 0 {
@@ -160,6 +163,20 @@ func genTorrent(t *rapid.T, lb string, names *[]string) *ltor {
 		off += lt.files[i].length
 	}
 	return lt
+}
+
+// genVia: one torrent in four started life as a magnet link whose display
+// name is not the torrent's real name (another name of the pool, a tricky
+// one, or none at all).
+func (lt *ltor) genVia(t *rapid.T, lb string, names *[]string) {
+	if rapid.IntRange(0, 3).Draw(t, lb+".via") != 0 {
+		return
+	}
+	dn := rapid.SampledFrom(append([]string{"", "dn"}, tricky[:12]...)).Draw(t, lb+".dn")
+	if len(*names) > 0 && rapid.Bool().Draw(t, lb+".dnpool") {
+		dn = rapid.SampledFrom(*names).Draw(t, lb+".dnname")
+	}
+	lt.viaDN = &dn
 }
 
 func (lt *ltor) spec() *webfix.Spec {
@@ -204,7 +221,11 @@ func (lt *ltor) start() error {
 				lt.pieceLen += 16384
 			}
 		}
-		lt.live, err = webfix.Add(lt.spec(), true)
+		if lt.viaDN != nil {
+			lt.live, err = webfix.AddViaMagnet(lt.spec(), *lt.viaDN, true)
+		} else {
+			lt.live, err = webfix.Add(lt.spec(), true)
+		}
 	}
 	if err != nil {
 		return err
@@ -311,7 +332,13 @@ func (lt *ltor) shape() (labels []string, shape string) {
 		if needsEscape(lt.name) {
 			l = append(l, "escaped-names")
 		}
+		if lt.viaDN != nil && *lt.viaDN != lt.name {
+			l = append(l, "started-as-magnet-with-another-name")
+		}
 		return l, "single"
+	}
+	if lt.viaDN != nil && *lt.viaDN != lt.name {
+		defer func() { labels = append(labels, "started-as-magnet-with-another-name") }()
 	}
 	set := map[string]bool{}
 	depth := 0
